@@ -1,7 +1,8 @@
 """C01 - rendered output displays the text with exactly the reported per-character styles."""
 from .. import obs as O
 from .common import (Contract, FLAG_COMBOS, ansi_values, history, render_failures, run_cases, tier_sizes,
-                     transitions, safe_obs, transition_values)
+                     transitions, safe_obs, transition_values, small_scope_values, small_scope_on,
+                     stack_values)
 
 PROP = 'C01'
 RULE = ('case = one rendering call (to_str/str/format without format spec) on a value reachable by a random '
@@ -101,7 +102,16 @@ def drive(ctx, mon, tier, only_case=None):
             # systematic part: every kind of transition of every effect group (DESIGN 4, C01 workload)
             with mon.quiet():
                 vals = list(transition_values(L, rng, ctx.shard, ctx.extra.get('nshards', 1)))
+                vals += list(stack_values(L, rng, ctx.shard, ctx.extra.get('nshards', 1)))
             ctx.extra['n_transition_values'] = len(vals)
+            for v in vals:
+                probe_value(ctx, mon, v)
+            return
+        if case == 1:
+            m = small_scope_on(ctx, tier)
+            with mon.quiet():
+                vals = [v for v, _ in small_scope_values(L, m, ctx.shard, ctx.extra.get('nshards', 1))]
+            ctx.extra['n_small_scope_values'] = len(vals)
             for v in vals:
                 probe_value(ctx, mon, v)
             return
